@@ -148,6 +148,38 @@ def cse_cases(rng, n):
     return out
 
 
+def ambiguous_cases(rng, n):
+    """systems that several assignments of axis lengths satisfy (only a product, only a sum, or both are known): whatever einx
+    does with them - an error today - it does the same in every process"""
+    out = []
+    names = "abcdefgh"
+    while len(out) < n:
+        a, b, c = rng.sample(names, 3)
+        p, q = rng.choice([2, 3, 4, 5]), rng.choice([2, 3, 4, 5])
+        while p == q:
+            q = rng.choice([2, 3, 4, 5, 6])
+        t = rng.randrange(5)
+        if t == 0:
+            desc, shapes = f"({a} {b}) ({a} + {b})", [(p * q, p + q)]
+        elif t == 1:
+            desc, shapes = f"({a} {b}), ({a} + {b})", [(p * q,), (p + q,)]
+        elif t == 2:
+            desc, shapes = f"({a} {b}) {c}", [(p * q, rng.choice([1, 2, 3]))]
+        elif t == 3:
+            desc, shapes = f"({a} + {b}) {c}", [(p + q, rng.choice([1, 2, 3]))]
+        else:
+            desc, shapes = f"({a} {b}) ({b} {c}) ({a} {c})", [(p * q, q * 2, p * 2)]
+        arrays = [gencalls.int_data(rng, sh, 1, 50, ramp=True) for sh in shapes]
+        fn = rng.choice(["solve_axes", "solve_shapes", "id"])
+        if fn == "id":
+            ins = desc.split(", ")
+            outs = [" ".join(sorted(set(ch for ch in i if ch.isalpha()))) for i in ins]
+            out.append({"op": "id", "desc": desc + " -> " + ", ".join(outs), "arrays": arrays, "kw": {}, "family": "ambiguous:id"})
+        else:
+            out.append({"op": fn, "desc": desc, "arrays": arrays, "kw": {}, "family": "ambiguous:" + fn})
+    return out
+
+
 def record_of(e):
     return {"op": e["op"], "desc": e["desc"], "kwargs": {k: (list(v) if isinstance(v, tuple) else v) for k, v in e["kw"].items()},
             "shapes": [list(np.shape(a)) if not isinstance(a, str) else a for a in e["arrays"]], "family": e["family"]}
@@ -161,7 +193,7 @@ def build_cases(rng, tier):
     n = 160 if tier == "quick" else 3000
     gen = [gencalls.gen_call(rng) for _ in range(n)] + collision_cases(rng, n // 4)
     cases = [{"op": c.op, "desc": c.desc, "arrays": c.arrays, "kw": {**c.size_kwargs(), **c.extra_kwargs}, "family": c.family} for c in gen]
-    cases += tie_cases(rng, n // 4) + shorthand_cases(rng, n // 2) + factory_cases(rng, n // 8) + solve_cases(rng, n // 2) + cse_cases(rng, n // 4)
+    cases += tie_cases(rng, n // 4) + shorthand_cases(rng, n // 2) + factory_cases(rng, n // 8) + solve_cases(rng, n // 2) + cse_cases(rng, n // 4) + ambiguous_cases(rng, n // 8)
     return cases
 
 
